@@ -647,14 +647,14 @@ def generate(tier, rng):
     quick = tier != 'thorough'
     small = list(range(1, 8))
     n_small, n_zero, n_mid, n_long, n_big = (40, 8, 7, 4, 2) if quick else (250, 30, 45, 22, 6)
-    n_coarse = 20 if quick else 100
+    n_coarse = 14 if quick else 100
     light, heavy = [], []
     for _ in range(n_coarse):
         light.append(gen_coarse(rng))
-    for _ in range(10 if quick else 50):
+    for _ in range(8 if quick else 50):
         light.append(gen_forms(rng))
     seqs = []
-    for k in range(4 if quick else 20):     # multi-call sequences keep their order and stay contiguous
+    for k in range(3 if quick else 20):     # multi-call sequences keep their order and stay contiguous
         seqs.append(list(gen_options(rng, k)))
     for _ in range(n_small):
         light.append(gen_call(rng, small, small, [5, 8, 10, 10, 15, 20, 20, 30]))
